@@ -253,4 +253,13 @@ def replay(a):
 
 
 if __name__ == '__main__':
-    sys.exit(main())
+    try:
+        rc = main()
+    except SystemExit:
+        raise
+    except BaseException as e:      # the machinery itself broke: that says nothing about the property
+        import traceback
+        traceback.print_exc()
+        print('INCONCLUSIVE: the checking machinery failed: %s: %s' % (type(e).__name__, e))
+        rc = 2
+    sys.exit(rc)
